@@ -4,11 +4,13 @@ Only the property text and the scratch worktree path are given - nothing from /v
 import json, sys
 pid = sys.argv[1]
 n = int(sys.argv[2]) if len(sys.argv) > 2 else 3
+WAVE2 = len(sys.argv) > 3 and sys.argv[3] == 'wave2'
+wt_name = pid + ('b' if WAVE2 else '')
 for l in open('/verif/properties.jsonl'):
     p = json.loads(l)
     if p['id'] == pid:
         break
-wt = '/tmp/wt/%s' % pid
+wt = '/tmp/wt/%s' % wt_name
 print(f"""You are helping to evaluate a verification effort by seeding realistic defects into a Python library.
 
 The library is jmschrei/tangermeme (PyTorch genomics toolkit). You have your OWN scratch git worktree of it at {wt} .
@@ -34,6 +36,7 @@ TASK: produce {n} DIFFERENT source changes (mutants) to the library (files under
       thread count/batch size/ordering, a fault at a particular point, or two cooperating sites that each look fine alone.
       Changes that ordinary use (the README-style happy path with default arguments on a typical input) would expose at once are NOT wanted.
 Make the {n} mutants differ in mechanism and in which part of the statement they break (different functions / clauses where the statement has several).
+{"For this round use these three categories, one mutant each: (1) two cooperating sites - each edit looks fine alone, together they break the property; (2) a defect that only a particular SEQUENCE of calls / earlier state in the same process exposes; (3) a boundary value of a numeric or structural PARAMETER (not of the sequence content), e.g. an extreme but documented setting. Prefer subtle numerical or indexing consequences over crashes." if WAVE2 else ""}
 
 For each mutant k = 1..{n} create the directory {wt}/MUTANTS/k/ containing:
   - patch.diff : output of `git diff` for exactly that mutant relative to the pristine worktree HEAD (apply-able with `git apply` at the repo root);
